@@ -141,6 +141,14 @@ def run_cases(ck, tier, seed, want_positions=False):
         if msgs is None:
             continue
         got = names_of(results["none"])
+        # a message for *every* faulty keyword / object: multiset, two faults with one name need two messages
+        wantcount = {}
+        for f in fl:
+            wantcount[f["name"]] = wantcount.get(f["name"], 0) + 1
+        for nm, n in wantcount.items():
+            if 0 < got.count(nm) < n:
+                ck.violation("C07|message-merged|%s" % "+".join(sorted(f["kind"] for f in fl)),
+                             "%d faults named %s but only %d message(s)" % (n, nm.upper(), got.count(nm)), {"text": text, "faults": fl})
         for f in fl:
             if f["name"] not in got:
                 ck.violation("C07|unnamed|%s|%s" % (f["kind"], f["name"] if f["kind"] in ("unknown-keyword", "missing-required") else "keyword"),
@@ -157,7 +165,7 @@ def run_cases(ck, tier, seed, want_positions=False):
     if used < 0.5 * len(bs):
         raise common.MachineryFailure("discard rate too high: %d of %d behaviours usable (%d discarded)" % (used, len(bs), discarded))
     ck.notes.append("%d behaviours, %d used, %d discarded by the reference filter; faults exercised: %r" % (len(bs), used, discarded, kindcount))
-    if quick is not None and min([kindcount.get(k, 0) for k in ("enum-outside", "wrong-type", "unknown-keyword", "wrong-arity", "elem-wrong-type", "below-min")]) == 0:
+    if quick is not None and min([kindcount.get(k, 0) for k in ("enum-outside", "wrong-type", "unknown-keyword", "wrong-arity", "elem-wrong-type", "below-min", "pair-elem-wrong-type")]) == 0:
         raise common.MachineryFailure("a fault kind was never exercised: %r" % kindcount)
     return bs, posrecs, used, discarded
 
@@ -183,5 +191,25 @@ def run(tier):
         if msgs or msgs_list:
             ck.violation("C07|false-error|module-api|%s" % t, "mappyfile.validate reports %r for the valid document %r" % ([m["message"] for m in msgs], text),
                          {"text": text})
+    # lists of roots of different types are judged one by one, each against the schema of its own type
+    types = sorted(t for t in v["schema"]["types"] if t != "symbolset")
+    def minimal(t, bad=False):
+        body = "TYPE POINT" if t == "layer" else ""
+        d = mappyfile.loads("%s %s END" % (t.upper(), body))
+        if bad:
+            d["zzz_unknown_keyword"] = 1
+        return d
+    for i, t1 in enumerate(types):
+        t2 = types[(i + 7) % len(types)]
+        for bad in (False, True):
+            try:
+                one = mappyfile.validate(minimal(t1)) + mappyfile.validate(minimal(t2, bad))
+                both = mappyfile.validate([minimal(t1), minimal(t2, bad)])
+            except Exception as ex:  # noqa: BLE001
+                ck.violation("C07|module-api|raised|mixed-list|%s" % type(ex).__name__, "validate raised %s on a list of %s and %s roots" % (ex, t1, t2), {})
+                continue
+            ck.count()
+            if sorted(names_of(one)) != sorted(names_of(both)):
+                ck.violation("C07|list-not-one-by-one|mixed-types", "validate([%s, %s]) names %r, one by one %r" % (t1, t2, names_of(both), names_of(one)), {})
     ck.sample({"faults": [b["faults"] for b in bs if b["faults"]][:3]})
     return ck.finish(coverage_extra={"behaviours": len(bs), "used": used, "discarded_by_reference_filter": discarded})
